@@ -233,7 +233,7 @@ theorem gkSame_storeTriggered (s : Tower) (node : Node) (k : Uuid) (a : Appt) (d
     split
     · dsimp only; exact g2.trans (gkSame_deleteAppointments _ _ _)
     · exact g2
-  · exact GkSame.refl s
+  · exact gkSame_deleteAppointments s [k] false
 
 theorem gkSame_addUpdateAppointment (s : Tower) (u : User) (k : Uuid) (len : Nat) :
     GkSame s (addUpdateAppointment s u k len).1 := by
